@@ -292,6 +292,203 @@ def check_cell_order(run, funcs, pid, cname, planes, verts, seed, max_ties, loc)
     return by_removed, total_paths
 
 
+def fan_boundary(run, funcs, pid, sizes=(20, 40), nseeds=8):
+    """`compute_boundary` on a LARGE connected removed set - the fan of N vertices around one plane (top of an N-sided prism) - under seeded
+    storage orders and dual rotations, executed concretely through the MIR: it must never give up and must reconstruct the same boundary
+    cycle whatever the order (the greedy search may have to look arbitrarily far ahead in the vertex array)"""
+    name = engine.find_fn(funcs, r'convex_cell::<impl at [^>]*>::compute_boundary$')
+    total = 0
+    for N in sizes:
+        top = 0
+        verts = [(top, 1 + k, 1 + (k + 1) % N) for k in range(N)]       # duals (top, side_k, side_k+1), counter-clockwise
+        canon = None
+        for seed in [None] + [run.seed * 100 + N + s for s in range(nseeds)]:
+            vs = list(verts)
+            if seed is not None:
+                rng = random.Random(seed)
+                rng.shuffle(vs)
+                vs = [d[r:] + d[:r] for d, r in zip(vs, [rng.randrange(3) for _ in vs])]
+            interp = engine.new_interp(funcs, max_visits=2000000)
+            st = State()
+            st.heap[1] = real_cycle(funcs, N + 1)
+            st.heap[2] = Agg('Vec', [engine.make_struct('src/voronoi/convex_cell.rs', 'Vertex', loc=Agg('DVec3', [F(0)] * 3), dual=Agg('array', d), radius2=F(1)) for d in vs])
+            outs = interp.exec_fn(st, name, [Ref(('H', 1)), Ref(('H', 2))], {})
+            run.add_functions(interp, funcs)
+            total += 1
+            if len(outs) != 1 or interp.panics:
+                msg = interp.panics[0][1] if interp.panics else '%d paths' % len(outs)
+                pl = {'kind': 'fan_boundary', 'n': N}
+                bad = check_fan_native(pl)
+                what = '%s compute_boundary gives up on the fan of %d vertices around one plane in storage order seed %s (%s)' % (pid, N, seed, msg[:60])
+                if bad:
+                    run.violation(what + '; natively: ' + bad, engine.save_replay(pid, pl))
+                else:
+                    run.suspect.append(what + ' - the native prism scenario is built without a panic')
+                return
+            cyc = outs[0][0].heap[1]
+            it = engine.new_interp(funcs, max_visits=4000000)
+            s2 = outs[0][0]
+            iname = engine.find_fn(funcs, r'simple_cycle::<impl at [^>]*>::iter$')
+            nname = engine.find_fn_where(funcs, r'simple_cycle::<impl at [^>]*>::next$', 'SimpleCycle2Iterator')
+            o = it.exec_fn(s2, iname, [Ref(('H', 1))], {})
+            s3, itv = o[0]
+            s3.heap[9] = itv
+            seq = []
+            ln = cyc.items[engine.field_index('src/simple_cycle.rs', 'SimpleCycle', 'len')]
+            for _ in range(ln):
+                o = it.exec_fn(s3, nname, [Ref(('H', 9))], {})
+                s3, v = o[0]
+                seq.append(v.items[0])
+            k0 = seq.index(min(seq))
+            seq = tuple(seq[k0:] + seq[:k0])
+            if canon is None:
+                canon = seq
+            elif seq != canon:
+                run.suspect.append('%s compute_boundary: the boundary of the %d-fan depends on the storage order (seed %s)' % (pid, N, seed))
+            if sorted(seq) != list(range(1, N + 1)):
+                run.suspect.append('%s compute_boundary: boundary of the %d-fan is %r' % (pid, N, seq[:12]))
+    run.obligations.append({'name': '%s compute_boundary on fans of %r vertices around one plane: %d seeded storage orders / dual rotations executed through the MIR, same boundary cycle each time'
+                            % (pid, tuple(sizes), total), 'expect': 'unsat', 'verdict': 'unsat' if not [s for s in run.suspect if 'compute_boundary' in s] else 'sat',
+                            'solver': 'concrete execution of the MIR + structural comparison', 'solver_s': 0.0})
+
+
+def check_fan_native(p, profile='debug'):
+    """a generator inside a ring of n others (n-sided prism cell) and one generator above it: the last clip removes the fan of n top vertices"""
+    import math
+    from . import oracle as OR
+    n = max(24, int(p.get('n', 40)))
+    for nn in (n, 2 * n, 96):
+        gens = [[0.5, 0.5, 0.3]]
+        for k in range(nn):
+            t = 2 * math.pi * (k + 0.37) / nn
+            r = 0.25 * (1 + 0.01 * ((k * 7919) % 11) / 11.0)
+            gens.append([0.5 + r * math.cos(t), 0.5 + r * math.sin(t), 0.3 + 0.01 * ((k * 104729) % 7) / 7.0])
+        gens.append([0.5, 0.5, 0.8])
+        sc = {'kind': 'scenario', 'dim': 3, 'periodic': False, 'anchor': [0.0, 0.0, 0.0], 'width': [1.0, 1.0, 1.0], 'gens': gens, 'mask': None}
+        for prof in ('debug', 'release'):
+            v = OR.violations(sc, prof, only=('C05', 'C02', 'C12'))
+            if v:
+                return '%d-sided prism cell clipped from above: %s [%s build]' % (nn, v[0][1], prof)
+    return None
+
+
+def cycle_long_history(run, funcs, pid, steps=1500):
+    """a SimpleCycle that lives through many clips (init is called once per effective clip of a cell) behaves like a fresh one: a seeded
+    sequence of `steps` init / try_extend calls is executed through the MIR and compared, call by call, with an independent successor-map
+    model written here"""
+    N = 9
+    rng = random.Random(run.seed + 99)
+    interp = engine.new_interp(funcs, max_visits=4000000)
+    st = State()
+    st.heap[1] = real_cycle(funcs, N)
+    init = engine.find_fn(funcs, r'simple_cycle::<impl at [^>]*>::init$')
+    ext = engine.find_fn(funcs, r'simple_cycle::<impl at [^>]*>::try_extend$')
+    iname = engine.find_fn(funcs, r'simple_cycle::<impl at [^>]*>::iter$')
+    nname = engine.find_fn_where(funcs, r'simple_cycle::<impl at [^>]*>::next$', 'SimpleCycle2Iterator')
+    ref = {}          # successor map of the reference model
+    start = None
+    n_init = 0
+
+    def observe(s):
+        cyc = s.heap[1]
+        ln = cyc.items[engine.field_index('src/simple_cycle.rs', 'SimpleCycle', 'len')]
+        o = interp.exec_fn(s, iname, [Ref(('H', 1))], {})
+        s2, itv = o[0]
+        s2.heap[9] = itv
+        seq = []
+        for _ in range(ln):
+            o = interp.exec_fn(s2, nname, [Ref(('H', 9))], {})
+            s2, v = o[0]
+            seq.append(v.items[0])
+        return ln, seq, s2
+
+    for step in range(steps):
+        if step % 3 == 0 or not ref:
+            a, b, c = rng.sample(range(N), 3)
+            o = interp.exec_fn(st, init, [Ref(('H', 1)), a, b, c], {})
+            st = o[0][0]
+            ref = {a: b, b: c, c: a}
+            start = a
+            n_init += 1
+            got_ok = True
+        else:
+            # a triangle that extends (one new plane + an existing edge), removes a corner, or does not fit at all
+            kind = rng.randrange(3)
+            cyc = list(ref.items())
+            if kind == 0 and len(ref) < N - 1:
+                k, j = rng.choice(cyc)                      # edge k -> j
+                new = rng.choice([x for x in range(N) if x not in ref])
+                tri = [new, j, k]
+            elif kind == 1 and len(ref) > 3:
+                k, j = rng.choice(cyc)
+                i = ref[j]
+                tri = [i, j, k]
+            else:
+                tri = rng.sample(range(N), 3)
+            r = rng.randrange(3)
+            tri = tri[r:] + tri[:r]
+            o = interp.exec_fn(st, ext, [Ref(('H', 1))] + tri, {})
+            st, res = o[0]
+            # reference semantics (documented in simple_cycle.rs)
+            want_ok = False
+            for i_ in range(3):
+                x, y, z = tri[i_], tri[(i_ + 1) % 3], tri[(i_ + 2) % 3]
+                if x not in ref and y in ref and z in ref and ref[z] == y:
+                    ref[z] = x
+                    ref[x] = y
+                    want_ok = True
+                    break
+                if x in ref and y in ref and z in ref and ref[z] == y and ref[y] == x:
+                    ref[z] = x
+                    del ref[y]
+                    if start == y:
+                        start = x
+                    want_ok = True
+                    break
+            if (res.name == 'Ok') != want_ok:
+                run.suspect.append('%s SimpleCycle after %d calls (%d of them init): try_extend%r returns %s, the reference cycle %s it' % (
+                    pid, step, n_init, tuple(tri), res.name, 'accepts' if want_ok else 'rejects'))
+                break
+        ln, seq, st = observe(st)
+        exp = []
+        cur = start
+        for _ in range(len(ref)):
+            exp.append(cur)
+            cur = ref[cur]
+        if ln != len(ref) or (seq and exp and set(seq) != set(exp)):
+            run.suspect.append('%s SimpleCycle after %d calls (%d of them init): cycle is %r, reference %r' % (pid, step, n_init, seq, exp))
+            break
+    run.add_functions(interp, funcs)
+    mine = [s for s in run.suspect if 'SimpleCycle after' in s]
+    run.obligations.append({'name': '%s SimpleCycle long history: %d init / try_extend calls (%d inits) on one cycle executed through the MIR agree call by call with an independent successor-map model'
+                            % (pid, steps, n_init), 'expect': 'unsat', 'verdict': 'sat' if mine else 'unsat', 'solver': 'concrete execution of the MIR + reference model', 'solver_s': 0.0})
+    if mine:
+        pl = {'kind': 'many_clips'}
+        bad = check_many_clips_native(pl)
+        if bad:
+            run.violation(mine[0] + '; natively: ' + bad, engine.save_replay(pid, pl))
+            run.suspect[:] = [s for s in run.suspect if s not in mine]
+
+
+def check_many_clips_native(p, profile='debug'):
+    """one cell that goes through more than 256 effective clips: a ring of 300 generators seen in angular order, then one from above"""
+    import math
+    from . import oracle as OR
+    for nn in (300, 520):
+        gens = [[0.5, 0.5, 0.3]]
+        for k in range(nn):
+            t = 2 * math.pi * (k + 0.37) / nn
+            r = 0.25 * (1 + 0.02 * k / nn)                  # slowly growing radius: the ring is visited in angular order
+            gens.append([0.5 + r * math.cos(t), 0.5 + r * math.sin(t), 0.3 + 0.001 * ((k * 104729) % 7) / 7.0])
+        gens.append([0.5, 0.5, 0.85])
+        sc = {'kind': 'scenario', 'dim': 3, 'periodic': False, 'anchor': [0.0, 0.0, 0.0], 'width': [1.0, 1.0, 1.0], 'gens': gens, 'mask': [True] + [False] * nn + [True]}
+        for prof in ('debug', 'release'):
+            v = OR.violations(sc, prof, only=('C05', 'C12', 'C07'))
+            if v:
+                return 'cell inside a ring of %d generators (one clip each) then clipped from above: %s [%s build]' % (nn, v[0][1], prof)
+    return None
+
+
 def check_clip_tie_native(p, profile='debug'):
     """unit cube cell of g = (0.75, 0.25, 0.5) clipped by the bisector towards q = (0.25, 0.75 - 2e-15, 0.5): the cube corners (0,0,0) and (0,0,1)
     lie within the float error band of the plane and are (exactly) strictly closer to q: they must be removed whatever the storage order"""
@@ -318,6 +515,10 @@ def check_clip_tie_native(p, profile='debug'):
 
 
 def replay(d):
+    if d['kind'] in ('fan_boundary', 'many_clips'):
+        bad = check_fan_native(d) if d['kind'] == 'fan_boundary' else check_many_clips_native(d)
+        print(bad)
+        return 1 if bad else 0
     if d['kind'] == 'clip_tie':
         bad = check_clip_tie_native(d)
         print(bad)
